@@ -67,6 +67,17 @@ CLAIMED["C19"] = dict(
          "Not covered: WannierData.to_npz/from_npz container wiring.",
     note=TB + "; text model: a formatted number is one whitespace-free token that parses back to the number at printed precision; np.loadtxt / np.savez value round trip; multiprocessing.Pool.map == map")
 
+CLAIMED["C33"] = dict(
+    text="Corner-energy routines of every system kind (Data_K_R, Data_K_soc, Data_K_k; parallelepiped and tetrahedron variants) executed "
+         "as real text on the real numpy with symbolic scalars: dK / tetrahedron vertices symbolic reals, Hamiltonian entries symbolic "
+         "complex, exp(2*pi*i*x) a symbolic phase with the homomorphism laws. Proved for all dK, vertices and matrix entries at the stated "
+         "shapes (2 bands per spin, 2-4 R-vectors, up/down/SOC R-vector sets all different): the coefficient handed to each sub-system's "
+         "R_to_k for corner v is H[R]*ph(R.v) with that sub-system's OWN Hamiltonian and R-vectors, one transform and one diagonalisation per "
+         "corner, the diagonalised SOC matrix is up at [::2,::2] + down at [1::2,1::2] (+ SOC term); k.p systems evaluate Ham at k+v. "
+         "Bounded stand-in: a real random SOC system with a permuted down R-list against the package's direct evaluation. "
+         "Not covered: phonon systems (phonon_freq_from_square applied to corners) and band selection are taken as frame conditions.",
+    note=TB + "; axioms: ph(x)ph(y)=ph(x+y), 1/ph(x)=ph(-x), 2*pi*n computed in floats is the exact multiple; R_to_k contract (C02): sum_R X[R] ph(R.k) with the rvec's own R list; eigvalsh external")
+
 NOT_APPLICABLE = {
     "C20": "real-space symmetrisation is a data-dependent floating-point orbit search over irrep objects; its postcondition is only statable through an eigen-solver, no discrete/algebraic kernel is left once externals are abstracted (DESIGN section 7)",
     "C21": "rotation matrices are produced inside sympy (polynomial expansion + evalf); orthogonality/composition live in that CAS computation, outside any contract this engine can generate VCs for (DESIGN section 7)",
